@@ -14,6 +14,7 @@ struct World {
     g1: Option<FlushGuard>,
     g2: Option<FlushGuard>,
     f1: Option<ForceFlushGuard>,
+    f2: Option<ForceFlushGuard>,
     guards_created: u8,
     guards_dropped: u8,
     force_dropped: bool,
@@ -36,7 +37,7 @@ impl World {
     /// one symbolic step: drop one of the live things, or create a guard from the owner, or mutate through the owner
     fn step(&mut self) {
         let op: u8 = kani::any();
-        kani::assume(op < 7);
+        kani::assume(op < 8);
         match op {
             0 => {
                 self.owner = None;
@@ -66,10 +67,16 @@ impl World {
                 }
             }
             5 => {
+                // several force-flush guards may exist at once: dropping ANY of them releases the entry
                 if let Some(o) = self.owner.as_ref() {
-                    if self.f1.is_none() && !self.force_dropped {
-                        self.f1 = Some(o.force_flush_guard());
+                    if self.f2.is_none() {
+                        self.f2 = Some(o.force_flush_guard());
                     }
+                }
+            }
+            7 => {
+                if self.f2.take().is_some() {
+                    self.force_dropped = true;
                 }
             }
             _ => {
@@ -94,6 +101,7 @@ fn world(with_g1: bool, with_f1: bool) -> World {
         g1,
         g2: None,
         f1,
+        f2: None,
         guards_created: with_g1 as u8,
         guards_dropped: 0,
         force_dropped: false,
@@ -103,7 +111,7 @@ fn world(with_g1: bool, with_f1: bool) -> World {
 
 // @check C06 quick timeout=1800 mem=14
 // @encodes metrique::append_and_close, AppendAndCloseOnDrop::{flush_guard, force_flush_guard, deref_mut}, keep_alive::{Parent::new, new_guard, force_drop_guard, Guard, DropAll::drop}, Drop for AppendAndCloseOnDropInner, RootEntry::write
-// @bounds owner + one flush guard + one force-flush guard alive initially; 3 symbolic steps, each one of: drop owner / drop guard 1 / drop guard 2 / drop force guard / create a second flush guard / create a force guard / mutate through the owner (any u64); checked after every step
+// @bounds owner + one flush guard + one force-flush guard alive initially; 3 symbolic steps, each one of: drop owner / drop flush guard 1 / drop flush guard 2 / drop force guard 1 / drop force guard 2 / create a second flush guard / create a second force guard (also after the first was dropped) / mutate through the owner (any u64); checked after every step
 // @oracle appends == closes == 1 exactly from the first moment (owner gone AND (all flush guards gone OR some force guard dropped)), 0 before, never 2; appended value == last mutation
 // @outside drops racing on several threads (Kani is sequential); AppendAndCloseOnDropHandle clones (separate harness); #[metrics]-generated entries (hand-written equivalent used)
 #[kani::proof]
@@ -116,10 +124,11 @@ pub fn drop_orders_owner_guard_force() {
     kani::cover!(unsafe { APPENDS } == 1 && w.g1.is_some(), "appended while a flush guard is still alive (force flush)");
     kani::cover!(unsafe { APPENDS } == 0 && w.owner.is_none(), "owner gone but entry still held back by a guard");
     // whatever is still alive is dropped now: afterwards the entry must have been appended exactly once
-    let World { owner, g1, g2, f1, last_v, .. } = w;
+    let World { owner, g1, g2, f1, f2, last_v, .. } = w;
     drop(g1);
     drop(owner);
     drop(f1);
+    drop(f2);
     drop(g2);
     unsafe {
         assert!(APPENDS == 1 && CLOSES == 1, "never not at all, never twice");
@@ -140,10 +149,11 @@ pub fn drop_orders_5_steps() {
     w.step();
     w.step();
     w.step();
-    let World { owner, g1, g2, f1, last_v, .. } = w;
+    let World { owner, g1, g2, f1, f2, last_v, .. } = w;
     drop(f1);
     drop(g2);
     drop(owner);
+    drop(f2);
     drop(g1);
     unsafe {
         assert!(APPENDS == 1 && CLOSES == 1, "never not at all, never twice");
